@@ -308,7 +308,7 @@ func C01(r *eng.Run) {
 	if r.Thorough() {
 		nlead = 3
 	}
-	leads := append(append(LeadSweep(nlead), WordShapes()...), LimitShapes()...)
+	leads := append(append(append(LeadSweep(nlead), WordShapes()...), LimitShapes()...), WeylShapes(48)...)
 	sm := SmallShapes()
 	r.Bounds["lead_prefix_digits"] = nlead
 	r.Par(len(leads), func(w *eng.W, i int) {
